@@ -377,6 +377,9 @@ func (f *Flow) consumerByEP(pid *actor.PID) *Consumer {
 // Fault is called from the controllers' tell helpers: obj = [3]any{ctx, to, message}.
 // A non-zero result means the harness took over the transport of the message.
 func (h *Harness) Fault(point string, obj any, a int64) int {
+	if !strings.HasPrefix(point, "reliable.") {
+		return 0
+	}
 	arr, ok := obj.([3]any)
 	if !ok {
 		return 0
@@ -403,6 +406,9 @@ func (h *Harness) Fault(point string, obj any, a int64) int {
 // At is called at the end of each controller Receive (obj = *ReceiveContext) and
 // at the consumer controller's buffer-overflow drop (obj = controller).
 func (h *Harness) At(point string, obj any, a, b int64) {
+	if !strings.HasPrefix(point, "reliable.") {
+		return // hooks of other mechanisms (mailboxes, scheduler, ...) are not ours
+	}
 	h.mu.Lock()
 	f := h.cur
 	h.mu.Unlock()
@@ -438,7 +444,16 @@ func (h *Harness) At(point string, obj any, a, b int64) {
 
 // waitRecv waits until controller `to` has finished handling msg.
 func (h *Harness) waitRecv(pred func(recvEvent) bool) (recvEvent, error) {
+	return h.waitRecvFrom(nil, pred)
+}
+
+// errGone: the controller stopped (it failed the flow terminally, or its endpoint is gone)
+// before it handled the message: the message is lost, which is an observation, not an error.
+var errGone = infraError{"controller is gone"}
+
+func (h *Harness) waitRecvFrom(target *actor.PID, pred func(recvEvent) bool) (recvEvent, error) {
 	deadline := time.After(45 * time.Second)
+	gone := 0
 	for {
 		select {
 		case ev := <-h.events:
@@ -446,6 +461,12 @@ func (h *Harness) waitRecv(pred func(recvEvent) bool) (recvEvent, error) {
 				return ev, nil
 			}
 			h.stray++
+		case <-time.After(100 * time.Millisecond):
+			if target != nil && !target.IsRunning() {
+				if gone++; gone >= 3 {
+					return recvEvent{}, errGone
+				}
+			}
 		case <-deadline:
 			return recvEvent{}, infraError{"watchdog: controller did not finish handling a message"}
 		}
